@@ -375,7 +375,7 @@ fn guarded(case: &BatchCase) -> Outcome {
 
 pub fn worker(ctx: &WorkerCtx) -> WorkerResult {
     let cases = match ctx.tier {
-        Tier::Quick => 1600u64,
+        Tier::Quick => 3200u64,
         Tier::Thorough => 60_000,
     };
     let cases = std::env::var("VERIF_CASES").ok().and_then(|s| s.parse().ok()).unwrap_or(cases);
